@@ -4,5 +4,5 @@ set -e
 cd "$(dirname "$0")/harness"
 export CARGO_NET_OFFLINE=true
 cp -f /repo/Cargo.lock Cargo.lock.repo 2>/dev/null || true
-cargo build --offline --profile verif --target-dir "$PWD/target" -p vcheck-base -p vcheck-hash -p vcheck-paren 2>&1 | tail -3
+cargo build --offline --profile verif --target-dir "$PWD/target" -p vcheck-base -p vcheck-hash -p vcheck-paren -p vcheck-exact 2>&1 | tail -3
 echo "setup done"
